@@ -180,7 +180,7 @@ func nextNonce() string { return fmt.Sprintf("n%d", nonce.Add(1)) }
 func theLab() *netlab.Lab {
 	labOnce.Do(func() {
 		lab = netlab.New(labHandler)
-		lab.AddTLS("origin-tls", hostOrigin+":443", hostOrigin+":8443")
+		lab.AddTLS("origin-tls", hostOrigin+":443", hostOrigin+":8443", strings.ToUpper(hostOrigin)+":443", "Origin.Verif-Lab.NL:443")
 		lab.AddTLS("other-tls", hostOther+":443")
 		lab.AddTLS("ip-tls", hostIP+":443")
 		lab.AddPlain("plain", hostOrigin+":80", hostOther+":80")
@@ -198,6 +198,10 @@ var bigPad = strings.Repeat("x", client.DefaultMaxHttpResponseSize)
 //	r<code>-<target> redirect; target ∈ same-path (https, same host, other path) | other-https | same-http | other-http | ip-https
 //	rr<code>-<target> one same-host https hop first
 func labHandler(listener string, w nethttp.ResponseWriter, r *nethttp.Request) {
+	if strings.Contains(r.URL.Path, "/loc-") {
+		locHandler(w, r)
+		return
+	}
 	segs := strings.Split(strings.TrimPrefix(r.URL.Path, "/"), "/")
 	if len(segs) < 3 || segs[len(segs)-1] != "did.json" {
 		nethttp.Error(w, "no such thing", 404)
